@@ -22,7 +22,11 @@ def load_known():
 def _matches(entry, prop, sig):
     if entry.get("property") != prop or entry.get("status") != "known":
         return False
-    return all(str(sig.get(k)) == str(v) for k, v in entry.get("match", {}).items())
+    def ok(k, v):
+        if isinstance(v, list):          # any of the listed values
+            return str(sig.get(k)) in [str(x) for x in v]
+        return str(sig.get(k)) == str(v)
+    return all(ok(k, v) for k, v in entry.get("match", {}).items())
 
 
 class Report:
